@@ -1,5 +1,5 @@
 //! C16 — the sampling reservoir reports true counts and favours no stream position.
-use crate::rt::{self, mix, Args, Ctx, Policy, Report, Rng, Rule, J};
+use crate::rt::{self, fnv, mix, Args, Ctx, Policy, Report, Rng, Rule, J};
 use metrics_util::storage::reservoir::AtomicSamplingReservoir;
 use std::collections::{HashMap, HashSet};
 use std::sync::atomic::Ordering;
@@ -200,6 +200,44 @@ fn run_uniform(a: &Args) -> Report {
         if rep.want_sample() {
             rep.sample(jo! {"capacity" => *k, "stream_len" => *n, "trials" => trials, "retention_counts" => J::A(counts.iter().map(|c| J::U(*c)).collect()), "max_abs_z" => worst.1.abs()});
         }
+        // the same shape with every trial's stream pushed from a freshly started thread: the replacement decisions of
+        // different threads must be independent draws too
+        let ftrials = (trials / 10).max(1000);
+        let res = Arc::new(AtomicSamplingReservoir::new(*k));
+        let mut fcounts = vec![0u64; *n];
+        for _ in 0..ftrials {
+            let r2 = res.clone();
+            let nn = *n;
+            let _ = std::thread::spawn(move || {
+                for i in 0..nn {
+                    r2.push(i as f64);
+                }
+            })
+            .join();
+            res.consume(|d| {
+                for v in d {
+                    fcounts[v as usize] += 1;
+                }
+            });
+        }
+        let fmean = ftrials as f64 * p;
+        let fsd = (ftrials as f64 * p * (1.0 - p)).sqrt();
+        let mut fworst = (0usize, 0.0f64);
+        for (i, c) in fcounts.iter().enumerate() {
+            let z = (*c as f64 - fmean) / fsd;
+            if z.abs() > fworst.1.abs() {
+                fworst = (i, z);
+            }
+        }
+        rep.case(mix(*k as u64 + 200, fcounts[0]), true);
+        if fworst.1.abs() > 6.5 {
+            rep.violation(
+                "C16:position-retention-not-uniform:streams-from-fresh-threads",
+                jo! {"what" => "with every trial's stream pushed from a newly started thread, a stream position is retained with a frequency incompatible with capacity/n (|z| > 6.5)",
+                "capacity" => *k, "stream_len" => *n, "trials" => ftrials, "expected_per_position" => fmean, "worst_position" => fworst.0, "worst_count" => fcounts[fworst.0], "z" => fworst.1,
+                "counts" => J::A(fcounts.iter().map(|c| J::U(*c)).collect())},
+            );
+        }
     }
     rep.count("positions_tested", tested);
     rep
@@ -354,6 +392,7 @@ fn run_consumers(a: &Args) -> Report {
     use std::sync::mpsc;
     let mut rep = Report::new("C16", &a.leg, a.seed);
     let mut r = Rng::new(a.shard_seed());
+    push_inside_closure(a, &mut rep, &mut r);
     let trials = a.budget(60, 3000);
     for _ in 0..trials {
         let n = 1 + r.usize(12);
@@ -419,6 +458,61 @@ fn run_consumers(a: &Args) -> Report {
         }
     }
     rep
+}
+
+/// Pushes made from inside the consume() closure (after the sides were swapped, complete before the closure returns —
+/// nothing is in flight across the swap): they belong to the next cycle and must be yielded by the next drain, with the
+/// next drain's count, whether or not the drained side was empty.
+fn push_inside_closure(a: &Args, rep: &mut Report, r: &mut Rng) {
+    let trials = a.budget(300, 30_000);
+    for _ in 0..trials {
+        let cap = 2 + r.usize(10);
+        let res = AtomicSamplingReservoir::new(cap);
+        let cycles = 2 + r.usize(5);
+        let mut next_val = 1.0f64;
+        let mut pending: Vec<f64> = Vec::new(); // pushed, not yet yielded
+        let mut trace: Vec<String> = Vec::new();
+        let mut bad = None;
+        for c in 0..=cycles {
+            // pushes before the drain (possibly none: an empty drain)
+            let before = if c == cycles { 0 } else { r.usize(3) };
+            for _ in 0..before {
+                if pending.len() < cap {
+                    res.push(next_val);
+                    pending.push(next_val);
+                    next_val += 1.0;
+                }
+            }
+            let inside = if c == cycles { 0 } else { r.usize(3) };
+            let mut got: Vec<f64> = Vec::new();
+            let mut rate = 0.0;
+            let mut pushed_inside: Vec<f64> = Vec::new();
+            res.consume(|d| {
+                rate = d.sample_rate();
+                for k in 0..inside {
+                    if k + 1 < cap {
+                        res.push(next_val);
+                        pushed_inside.push(next_val);
+                        next_val += 1.0;
+                    }
+                }
+                got.extend(d);
+            });
+            trace.push(format!("cycle {}: {} pushed before, drain yielded {:?} (rate {}), {} pushed inside the closure", c, before, got, rate, pushed_inside.len()));
+            let mut exp = pending.clone();
+            exp.sort_by(|x, y| x.partial_cmp(y).unwrap());
+            got.sort_by(|x, y| x.partial_cmp(y).unwrap());
+            if got != exp {
+                bad = Some(format!("drain of cycle {} yielded {:?}, expected {:?}", c, got, exp));
+                break;
+            }
+            pending = pushed_inside;
+        }
+        rep.case(mix(cap as u64, fnv(format!("{:?}", trace).as_bytes())), true);
+        if let Some(b) = bad {
+            rep.violation("C16:value-pushed-inside-consume-closure-lost-or-misplaced", jo! {"what" => "values pushed from inside the consume() closure (after the swap, nothing in flight across it) were not yielded exactly once by the next drain", "detail" => b, "capacity" => cap, "trace" => J::A(trace.iter().map(|t| J::s(t.clone())).collect())});
+        }
+    }
 }
 
 /// Miri / TSan: no monitor synchronisation; pushes race with drains, quiescent conservation only.
